@@ -2,7 +2,7 @@
 C18 — PROPERTY THEOREMS.  "Coroutine primitives: FIFO delivery, mutual exclusion, no lost wake-ups."
 
 Every theorem quantifies over EVERY execution `run init ops` of the model of the repaired code
-(patches/C18-01..03): any number of script definitions and routines, any scripts over
+(patches/C18-01..04): any number of script definitions and routines, any scripts over
 yield / wait / send / recv / lock / unlock / acquire / release / post / waitBroadcast /
 condition add·wait·post / join / create / cancel / exit, and any sequence of main-context
 operations (new / resume / cancel / cleanup / pass), each followed by one loop pass.
